@@ -17,6 +17,14 @@ impl<'a, B: BitVector> BitIterator<'a, B> {
     }
 }
 
+#[cfg(feature = "verif-hooks")]
+impl<B: BitVector> BitIterator<'_, B> {
+    #[doc(hidden)]
+    pub fn verif_range(&self) -> (usize, usize) {
+        (self.range.start, self.range.end)
+    }
+}
+
 impl<B: BitVector> Iterator for BitIterator<'_, B> {
     type Item = Bit;
 
